@@ -72,7 +72,26 @@ def generate(rng, tier):
                 s.meta[l1] = {"x": x, "cacheable": True}
                 l2 = s.add("unwind R CP ip %s %s S" % (hx(x), regs), tag="x86:pe:repeat-notext:second")
                 s.meta[l2] = {"must_hit": True, "prev": l1, "x": x, "cacheable": True}
-        s.add("stats CR"); s.add("stats CW"); s.add("stats C0")
+        # calls that store nothing leave the slot as it was: an entry of ANOTHER module set stays there, and the next
+        # call for that slot is again counted as 'other module set' (seeded change C20-11 cleared such slots on lookup).
+        # Unwinder Q maps, at the addresses of R's image MR, an image whose row does not compress (CFA = sp + 12 / + 24:
+        # evaluated generically, never cached).
+        unc = dict(cfa=("r", ARCH_REGS[arch]["sp"], 12 if arch == "x86" else 24), fp=("s",), ra=(("o", -8) if arch == "x86" else ("s",)))
+        fq = [dict(start=0x100, len=0x4000, rows=[(0, unc)])]
+        s.module_dwarf("MQ", 0x900000, 0x910000, 0x900000, 0, rng.choice(["hdr", "eh", "debug"]), fq, rng)
+        s.add("new Q"); s.add("add Q MQ"); s.add("newcache CQ")
+        s.mem("SQ", [(0x7000 + 4 * i, 0x900200 + i) for i in range(64)])
+        for j in range(4):
+            x = 0x900100 + rng.below(0x3000)
+            regs = s.regs_x86(x, 0x7000, 0x7100) if arch == "x86" else s.regs_a64(M64, 0x905555, 0x7000, 0x7100)
+            l1 = s.add("unwind R CQ ra %s %s S" % (hx(x + 1), regs), tag="%s:keep-slot:fill" % arch)
+            s.meta[l1] = {"x": x, "cacheable": True}
+            for k2 in range(2):
+                lq = s.add("unwind Q CQ ra %s %s SQ" % (hx(x + 1), regs), tag="%s:keep-slot:uncacheable:%d" % (arch, k2))
+                s.meta[lq] = {"x": x, "uncacheable": True}
+            l3 = s.add("unwind R CQ ra %s %s S" % (hx(x + 1), regs), tag="%s:keep-slot:again" % arch)
+            s.meta[l3] = {"x": x, "cacheable": True, "must_hit": True, "prev": l1}
+        s.add("stats CR"); s.add("stats CW"); s.add("stats C0"); s.add("stats CQ")
         out.append((name, s))
     return out
 
@@ -146,6 +165,8 @@ def judge(script, impl):
         if cat != 0:
             if m.get("cacheable") and g is not None:
                 sh[x % N] = ("known", x, g)
+            elif m.get("uncacheable"):
+                pass                      # the call stores nothing: the slot keeps what it held
             else:
                 sh[x % N] = "unknown"
     return bad
